@@ -55,10 +55,17 @@ pub mod verif_model {
         }
 
         pub fn get(&self, k: &K) -> Option<&V> {
+            // a length test the model checker can fold: the map is empty in every harness
+            if self.entries.is_empty() {
+                return None;
+            }
             self.entries.iter().find(|(key, _)| key == k).map(|(_, v)| v)
         }
 
         pub fn get_mut(&mut self, k: &K) -> Option<&mut V> {
+            if self.entries.is_empty() {
+                return None;
+            }
             self.entries.iter_mut().find(|(key, _)| key == k).map(|(_, v)| v)
         }
 
